@@ -576,7 +576,13 @@ pub fn run(_env: &Env, run: &Run) -> (Stats, Coverage) {
     {
         let scratch = Scratch::new();
         let path = scratch.dir.join("long.csv");
-        for n in [255usize, 256, 1023, 1024, 4000, 4081, 4082, 4083, 4084, 4095, 4096, 4097, 8191, 8192, 8193, 65535, 65536, 70000] {
+        let mut lens = vec![255usize, 256, 1023, 1024, 4000, 4081, 4082, 4083, 4084, 4095, 4096, 4097, 8191, 8192, 8193, 65535, 65536, 70000];
+        // around 2^20 and 2^21 (read limits), thorough also 2^24
+        lens.extend([(1 << 20) - 40, (1 << 20) - 1, 1 << 20, (1 << 20) + 1, (1 << 21) + 3]);
+        if run.tier == Tier::Thorough {
+            lens.extend([(1 << 24) - 1, (1 << 24) + 1]);
+        }
+        for n in lens {
             for filler in ["x", "\u{e9}", "a, b"] {
                 let desc: String = filler.repeat(n / filler.len() + 1).chars().take(n).collect();
                 let row = format!("0041-005A,ID_DIS or FREE_PVAL,{}", desc);
@@ -656,7 +662,7 @@ pub fn run(_env: &Env, run: &Run) -> (Stats, Coverage) {
     st.sample(json!({"row": "0041,PVALID or,desc", "expected": "Err"}));
     st.sample(json!({"file": "header, good, bad(above U+10FFFF), good (CRLF, no final newline)", "expected": "Ok, Err with line()=3, Ok - in file order"}));
     let cov = Coverage {
-        rule: format!("grammar enumeration: (1) every code point 0..=0x10FFFF as a single-code-point row in 4/5/6-digit upper-case hex, property field and description rotating over all {} property fields (7 names + 49 ordered pairs x 3 spacings) and {} descriptions (empty, commas, ' or ', trailing CR); (2) every range start<=end over {} boundary values x every property field x every description; (3) {} hand-listed malformed rows + systematic deletion/corruption of each field of boundary rows; (4) every file of <= {} rows over a pool of {} rows (6 well-formed, rest malformed) x LF/CRLF x with/without final newline through CsvLineParser::from_path: items in file order, error line() = 1-based line; (4b) descriptions of 255..70000 bytes as single rows and inside 4-row files; (4c) files whose header or one data row is not valid UTF-8; (5) the real IANA file row by row; expected values are known by construction; non-trivial = range rows, malformed rows, multi-row files", props.len(), DESCS.len(), b.len(), malformed_rows().len(), maxrows, pool.len()),
+        rule: format!("grammar enumeration: (1) every code point 0..=0x10FFFF as a single-code-point row in 4/5/6-digit upper-case hex, property field and description rotating over all {} property fields (7 names + 49 ordered pairs x 3 spacings) and {} descriptions (empty, commas, ' or ', trailing CR); (2) every range start<=end over {} boundary values x every property field x every description; (3) {} hand-listed malformed rows + systematic deletion/corruption of each field of boundary rows; (4) every file of <= {} rows over a pool of {} rows (6 well-formed, rest malformed) x LF/CRLF x with/without final newline through CsvLineParser::from_path: items in file order, error line() = 1-based line; (4b) descriptions of 255..70000 bytes and around 2^20, 2^21 (thorough: 2^24) bytes as single rows and inside 4-row files; (4c) files whose header or one data row is not valid UTF-8; (5) the real IANA file row by row; expected values are known by construction; non-trivial = range rows, malformed rows, multi-row files", props.len(), DESCS.len(), b.len(), malformed_rows().len(), maxrows, pool.len()),
         alphabet: json!({"names": NAMES, "descriptions": DESCS, "boundary": b.iter().map(|v| format!("{:04X}", v)).collect::<Vec<_>>()}),
         bound_completed: format!("1,114,112 code points x up to 3 spellings; {} ranges x {} x {}; {} files x 4 layouts", ranges.len(), props.len(), DESCS.len(), nfiles),
         exhaustive: false,
